@@ -418,12 +418,30 @@ impl Gen {
         is_private: rng.chance(1, 15),
       });
     }
-    // a class may implement an interface of the same module
-    let ifaces: Vec<ClassSig> =
+    // a class may implement — and an interface may extend — an interface of the same module or an
+    // imported one (chains of super types across modules: checking a module can then report an
+    // error located two import hops away); now and then the super type is a class, which is an
+    // error reported at the use site
+    let mut ifaces: Vec<ClassSig> =
       spec.classes.iter().filter(|c| matches!(c.kind, ClassKind::Interface)).cloned().collect();
+    for v in self.visible(&spec) {
+      let local = spec.classes.iter().any(|c| c.name == v.name);
+      if !local && v.tparam.is_none() && (matches!(v.kind, ClassKind::Interface) || rng.chance(1, 10)) {
+        ifaces.push(v);
+      }
+    }
     if !ifaces.is_empty() {
       for c in spec.classes.iter_mut() {
-        if !matches!(c.kind, ClassKind::Interface) && c.tparam.is_none() && rng.chance(1, 2) {
+        if matches!(c.kind, ClassKind::Interface) {
+          if rng.chance(1, 3) {
+            let i = rng.pick(&ifaces).clone();
+            if i.name != c.name {
+              c.implements = Some(i.name.clone());
+            }
+          }
+          continue;
+        }
+        if c.tparam.is_none() && rng.chance(1, 2) {
           let i = rng.pick(&ifaces).clone();
           // copy (most of) the interface's members; leaving some out yields the
           // "members must be implemented" diagnostic
